@@ -420,6 +420,58 @@ def recover_and_check(layout, snap, acks, hist, results):
             if nm in names and nm not in subs:
                 bad('acked-subscription-lost', f'SUBSCRIBE {nm} acknowledged '
                     f'but LSUB gives {sorted(subs)}')
+        # ---- a second life: the recovered server goes on working ----------
+        # everything that lies in 'a' is moved (back) into INBOX, the server
+        # is stopped cleanly and started again: INBOX must then hold exactly
+        # what it held after the recovery plus what was moved, every message
+        # once (a record left behind by the crash must not come back to life)
+        if 'a' in dump and 'INBOX' in dump and dump['a'][1] and \
+                not ctx.session(si).done and not out:
+            before_in = sorted(str(r[0]) for r in dump['INBOX'][1].values())
+            moved = sorted(str(r[0]) for r in dump['a'][1].values())
+            if ctx.do(si, b'SELECT a').cond == 'OK':
+                stm = ctx.do(si, b'MOVE 1:* INBOX')
+                ctx.do(si, b'LOGOUT')
+                ctx.harness_errors.clear()
+                w.own_root = False          # the directory lives on
+                ctx.close()
+                w.close()
+                if stm.cond != 'OK':
+                    with fsjail.unjailed():
+                        shutil.rmtree(rroot, ignore_errors=True)
+                else:
+                    w2 = MaildirWorld(layout=layout, root=rroot, reuse=True,
+                                      users={'alice': ('pw', ())},
+                                      time_offset=1400.0)
+                    w2.own_root = True
+                    try:
+                        c2 = Ctx(w2)
+                        s2 = c2.connect()
+                        x1 = c2.do(s2, b'LOGIN alice pw')
+                        x2 = c2.do(s2, b'SELECT INBOX')
+                        sf = c2.do(s2, b'UID FETCH 1:* (UID BODY.PEEK[])')
+                        if x1.cond != 'OK' or x2.cond != 'OK':
+                            raise RuntimeError(f'second life: {x1.raw!r} '
+                                               f'{x2.raw!r}')
+                        got = []
+                        for r in sf.untagged('FETCH'):
+                            b = r.data.get(('BODY', b'', None))
+                            mm = TOKEN.search(b or b'')
+                            got.append((mm.group(1).decode() if mm else
+                                        'None', r.data['UID']))
+                        want = sorted(before_in + moved)
+                        if sf.cond != 'OK' or \
+                                sorted(t for t, _ in got) != want:
+                            bad('second-life', f'after the recovery INBOX '
+                                f'held {before_in} and a held {moved}; '
+                                f'MOVE 1:* INBOX (OK), clean stop, restart: '
+                                f'INBOX lists {sorted(got)}')
+                        c2.harness_errors.clear()
+                        c2.close()
+                    finally:
+                        if not w2.closed:
+                            w2.close()
+                return out
         ctx.close()
     finally:
         if not w.closed:
@@ -541,6 +593,17 @@ def _run(*, tier, seed, jobs, progress, opts):
     hists = []
     for n in range(1, maxlen + 1):
         hists += list(itertools.product(range(len(ALPHABET)), repeat=n))
+    # longer histories around a move whose message has changed its flags
+    # since the folder was last scanned
+    names = [n for n, _ in ALPHABET]
+    extra = [('CREATE-a', 'STORE1+Seen', 'MOVE1-a'),
+             ('CREATE-a', 'STORE1=Deleted', 'MOVE1-a'),
+             ('CREATE-a', 'APPEND-INBOX-flags', 'MOVE1-a'),
+             ('CREATE-a', 'COPY1-a', 'MOVE1-a'),
+             ('CREATE-a', 'MOVE1-a', 'MOVE1-a'),
+             ('CREATE-a', 'STORE1+Seen', 'COPY1-a')]
+    if maxlen < 3:
+        hists += [tuple(names.index(x) for x in h) for h in extra]
     tasks = []
     for layout in ('++', 'fs'):
         for h in hists:
